@@ -516,8 +516,12 @@ impl Rasn {
                 _ => TokenStream::new(),
             }
         } else {
+            // A constrained type reference may refer to an INTEGER: its value range is signed, too.
             self.format_range_annotations(
-                matches!(member.ty(), ASN1Type::Integer(_)),
+                matches!(
+                    member.ty(),
+                    ASN1Type::Integer(_) | ASN1Type::ElsewhereDeclaredType(_)
+                ),
                 &all_constraints,
             )?
         };
